@@ -114,20 +114,26 @@ FULL = (VAR, VAR, VAR)
 
 
 # ---------------------------------------------------------------- generator
+def rnd_name(rng):
+    # the five unrestricted names three times as often as ',' [] {} '|'
+    return A(rng.choice(["a", "+", "-", "mod", "xx"] * 3 + NAMES))
+
+
 def rnd_operator(rng):
     r = rng.random()
     if r < 0.55:
-        return A(rng.choice(NAMES))
-    if r < 0.93:
+        return rnd_name(rng)
+    if r < 0.94:
         n = rng.choice([1, 2, 2, 3])
-        els = [A(rng.choice(NAMES)) if rng.random() < 0.93 else rng.choice(BAD_ELEMS) for _ in range(n)]
+        els = [rnd_name(rng) if rng.random() < 0.95 else rng.choice(BAD_ELEMS) for _ in range(n)]
         return terms.mklist(els)
     return rng.choice(BAD_OPERATORS)
 
 
 def rnd_call(rng):
-    p = rng.choice(PRIOS) if rng.random() < 0.9 else I(rng.choice([2, 400, 500, 999, 1100, 1199]))
-    s = A(rng.choice(SPECS)) if rng.random() < 0.9 else rng.choice(BAD_SPECS)
+    r = rng.random()
+    p = rng.choice(PRIOS) if r < 0.55 else I(rng.choice([0, 0, 1, 200, 200, 400, 500, 700, 999, 1000, 1001, 1100, 1200]))
+    s = A(rng.choice(SPECS)) if rng.random() < 0.92 else rng.choice(BAD_SPECS)
     return (p, s, rnd_operator(rng))
 
 
@@ -165,7 +171,7 @@ def gen_histories(ctx):
             for o in rng.sample([A(x) for x in NAMES], 2) + [rnd_operator(rng)]:
                 singles.append((p, s, o))
     rng.shuffle(singles)
-    for c in singles[: ctx.scale(250, 5000)]:
+    for c in singles[: ctx.scale(150, 5000)]:
         hs.append([c])
     # the list forms that must be all-or-nothing: a clean name together with one that is rejected
     for bad, mk in (("+", "xf"), ("-", "yf"), ("mod", "xf"), (",", "xfx"), ("[]", "fy"), ("{}", "fy"), ("|", "fy"), ("|", "xfy")):
@@ -173,7 +179,7 @@ def gen_histories(ctx):
             for order in (0, 1):
                 names = [A(good), A(bad)] if order == 0 else [A(bad), A(good)]
                 hs.append([(I(200), A(mk), terms.mklist(names))])
-    for _ in range(ctx.scale(900, 60000)):
+    for _ in range(ctx.scale(360, 60000)):
         hs.append([rnd_call(rng) for _ in range(rng.choice([2, 3, 4, 5, 6, 6]))])
     return hs
 
